@@ -1,8 +1,417 @@
 import FtDriver.Json
 open Lean (Json)
 namespace FtDriver
-open Ft
+open Ft Ft.C14
 
-def handleC14 (_j : Json) : Except String Verdict := throw "C14: not implemented"
+/-! C14 — ids, shapes, defaults, formats, active ranges.  Case kinds (field `kind`):
+    * `ctor`: how, ids, d, shape (declared or null), dims, dflt; impl.res = tensor observation + `tree`
+    * `xf`:   op {name, …}; impl.src / impl.res = tensor observations (or res.err / impl.pre_err)
+    * `lazy`: op {name, …}; impl.a / impl.b / impl.res = {id, a: [lo, hi], lazy, coords}
+    * `join`: own (per level), ids, shape, dflt, via; impl.ranks / impl.fibers
+    A tensor observation is {ids, auth, shape, dflt, fmts, mut, levels: [[{c, a}]]}. -/
+
+namespace C14D
+
+def jNull (j : Json) : Bool := match j with | .null => true | _ => false
+
+def optField (j : Json) (k : String) : Option Json :=
+  match j.getObjVal? k with
+  | .ok v => if jNull v then none else some v
+  | _ => none
+
+def boolD (j : Json) (k : String) (d : Bool) : Bool :=
+  match j.getObjVal? k with
+  | .ok v => (v.getBool?).toOption.getD d
+  | _ => d
+
+partial def parseSx (j : Json) : Except String Sx :=
+  match j with
+  | .num _ => do pure (Sx.n (← j.getInt?))
+  | .str "inf" => pure Sx.inf
+  | .arr a => do
+    let l ← a.toList.mapM parseSx
+    pure (Sx.ofList l)
+  | _ => throw s!"not a coordinate/shape value: {j.compress}"
+
+def parseSxList (j : Json) : Except String (List Sx) := do (← asList j).mapM parseSx
+
+def parseRId (j : Json) : Except String RId :=
+  match j with
+  | .str s => pure (.one s)
+  | .arr a => do pure (.many (← a.toList.mapM (·.getStr?)))
+  | _ => throw s!"not a rank id: {j.compress}"
+
+def parseFmt (j : Json) : Except String Fmt := do
+  match (← j.getStr?) with
+  | "C" => pure .C
+  | "U" => pure .U
+  | s => throw s!"bad format {s}"
+
+def parseStyle : String → Except String Style
+  | "tuple" => pure .tuple | "pair" => pure .pair | "absolute" => pure .absolute
+  | "relative" => pure .relative | "linear" => pure .linear | s => throw s!"bad style {s}"
+
+def parseFObs (j : Json) : Except String FObs := do
+  let cs ← parseSxList (← field j "c")
+  match (← fArr j "a") with
+  | [lo, hi] => do pure ⟨cs, ← parseSx lo, ← parseSx hi⟩
+  | _ => throw "active range"
+
+def parseLevels (j : Json) : Except String (List (List FObs)) := do
+  (← asList j).mapM (fun l => do (← asList l).mapM parseFObs)
+
+structure TObs where
+  mt : Meta
+  rep : List Sx                 -- getShape() (authoritative or estimated)
+  levels : List (List FObs)
+  allEmpty : List Bool := []    -- per rank: all(fiber.isEmpty() for fiber in rank.fibers)
+
+def parseTObs (j : Json) : Except String TObs := do
+  let ids ← (← fArr j "ids").mapM parseRId
+  let auth ← match optField j "auth" with
+    | none => pure none
+    | some a => do pure (some (← parseSxList a))
+  let rep ← parseSxList (← field j "shape")
+  let dflt ← fInt j "dflt"
+  let fmts ← (← fArr j "fmts").mapM parseFmt
+  let mutb := boolD j "mut" false
+  let levels ← parseLevels (← field j "levels")
+  let allEmpty := match optField j "allempty" with
+    | some a => ((a.getArr?).toOption.getD #[]).toList.map (fun b => (b.getBool?).toOption.getD false)
+    | none => []
+  pure { allEmpty, mt := { ids, shape := auth, dflt, fmts, mutable := mutb }, rep, levels }
+
+def dropTrailingEmpty {α : Type} (l : List (List α)) : List (List α) :=
+  (l.reverse.dropWhile (fun x => x.isEmpty)).reverse
+
+/-- clauses of the Meta part on which `want` and `got` differ -/
+def metaDiff (cmpShape : Bool) (want got : Meta) : List String :=
+  (if want.ids = got.ids then [] else ["ids"]) ++
+  (if !cmpShape || want.shape = got.shape then [] else ["shape"]) ++
+  (if want.dflt = got.dflt then [] else ["dflt"]) ++
+  (if want.fmts = got.fmts then [] else ["fmts"]) ++
+  (if want.mutable = got.mutable then [] else ["mut"])
+
+def sxJson : Sx → Json
+  | .n v => jInt v
+  | .inf => Json.str "inf"
+  | .nil => jList []
+  | .cons h t => jList [sxJson h, sxJson t]     -- debugging aid only (nested pairs)
+
+def ridJson : RId → Json
+  | .one s => Json.str s
+  | .many l => jList (l.map Json.str)
+
+def metaJson (m : Meta) : Json :=
+  Json.mkObj [("ids", jList (m.ids.map ridJson)),
+    ("auth", match m.shape with | none => Json.null | some s => jList (s.map sxJson)),
+    ("dflt", jInt m.dflt),
+    ("fmts", jList (m.fmts.map (fun f => Json.str (match f with | .C => "C" | .U => "U")))),
+    ("mut", Json.bool m.mutable)]
+
+def optMetaJson : Option Meta → Json
+  | none => Json.null
+  | some m => metaJson m
+
+/-! ### transforms -/
+
+structure XfOp where
+  name : String
+  k : Nat := 0
+  levels : Nat := 1
+  style : Style := .tuple
+  order : List RId := []
+
+def parseXfOp (j : Json) : Except String XfOp := do
+  let name ← fStr j "name"
+  let k := (fNat j "k").toOption.getD 0
+  let levels := (fNat j "levels").toOption.getD 1
+  let style ← match fStr j "style" with
+    | .ok s => parseStyle s
+    | _ => pure Style.tuple
+  let order ← match optField j "order" with
+    | some o => do (← asList o).mapM parseRId
+    | none => pure []
+  pure { name, k, levels, style, order }
+
+def xfModel (op : XfOp) (src : TObs) : Except String (Option Meta × Option Meta) :=
+  let m := src.mt
+  match op.name with
+  | "split" => pure (mSplit op.k m, sSplit op.k m)
+  | "swizzle" => pure (some (mSwizzle op.order m), some (sSwizzle op.order m))
+  | "swap" =>
+    let emptyBranch := src.allEmpty.getD op.k false
+    let truthy := src.rep.all (fun s => s != Sx.n 0 && s != Sx.nil)
+    -- only the (empty) root is detached by `copy(preserve_owner=False)`; deeper fibers still answer
+    -- through their old ranks, which give a shape only if it was authoritative
+    let carried := if m.shape.isSome && src.levels.length = m.ids.length && truthy then m.shape else none
+    pure (mSwap op.k emptyBranch carried m, sSwap op.k m)
+  | "flatten" | "merge" => pure (mFlatten op.style op.k op.levels m, sFlatten op.style op.k op.levels m)
+  | "unflatten" => pure (mUnflatten op.k op.levels src.rep m, sUnflatten op.k op.levels m)
+  | "updc" | "updp" => pure (some (mUpdate m), some m)
+  | s => throw s!"C14: unknown transform {s}"
+
+/-- preconditions of the Meta model: consistent lengths, distinct ids, a permutation for swizzle,
+    fresh ids for split / flatten (the code looks formats up by id) -/
+def xfPre (op : XfOp) (m : Meta) : Bool :=
+  m.wfB &&
+  (match op.name with
+   | "swizzle" => decide (op.order.Nodup) && decide (op.order.length = m.ids.length) &&
+                  op.order.all (fun r => decide (r ∈ m.ids))
+   | "split" =>
+     (match m.ids[op.k]? with
+      | some (.one s) => decide (RId.one (s ++ ".1") ∉ m.ids) && decide (RId.one (s ++ ".0") ∉ m.ids)
+      | _ => false)
+   | "flatten" | "merge" =>
+     decide (1 ≤ op.levels) && decide (op.k + op.levels < m.ids.length) &&
+     decide (RId.many (((m.ids.drop op.k).take (op.levels + 1)).flatMap RId.toList) ∉ m.ids)
+   | _ => true)
+
+def explicitRange (rep : List Sx) (lv : List (List FObs)) : Bool :=
+  (lv.zip rep).any (fun p => p.1.any (fun f => !(f.lo == Sx.n 0 && f.hi == p.2) &&
+    !(f.coords.isEmpty && p.2 == Sx.n 0)))
+
+def handleXf (j : Json) : Except String Verdict := do
+  let impl ← field j "impl"
+  if (optField impl "pre_err").isSome then
+    return { agree := true, spec := true, tags := ["OUT_OF_MODEL", "pre-error"] }
+  let op ← parseXfOp (← field j "op")
+  let src ← parseTObs (← field impl "src")
+  let resJ ← field impl "res"
+  if !xfPre op src.mt then
+    return { agree := true, spec := true, tags := ["OUT_OF_MODEL", "meta-precondition"] }
+  let (model, spec) ← xfModel op src
+  let srcAuth := src.mt.shape.isSome
+  let srcEmpty := match src.levels with | (f :: _) :: _ => f.coords.isEmpty | _ => true
+  let tags0 := [op.name, if srcAuth then "src-auth" else "src-est"] ++
+    (if srcEmpty then ["src-empty"] else []) ++
+    (if explicitRange src.rep src.levels then ["src-explicit-range"] else []) ++
+    (if op.name == "swap" && src.allEmpty.getD op.k false then ["swap-empty-branch"] else []) ++
+    (if op.name == "unflatten" && (match src.rep[op.k]? with | some (.n _) => true | _ => false)
+     then ["unflatten-entry-not-tuple"] else []) ++
+    (if src.mt.fmts.any (· == Fmt.U) then ["fmtU"] else []) ++
+    (if src.mt.mutable then ["mutable"] else []) ++
+    (if src.mt.dflt != 0 then ["dflt-nonzero"] else []) ++
+    (if !srcEmpty && (srcAuth || src.mt.fmts.any (· == Fmt.U) || src.mt.mutable || src.mt.dflt != 0)
+     then ["nontrivial"] else [])
+  match optField resJ "err" with
+  | some e =>
+    let cls := (e.getStr?).toOption.getD "?"
+    match model with
+    | some _ =>
+      -- the Meta code would have produced a result: the exception comes from the tree algorithm
+      pure { agree := true, spec := true, tags := ["OUT_OF_MODEL", "tree-error", s!"tree-error:{op.name}:{cls}"] }
+    | none =>
+      match spec with
+      | some _ => pure { agree := true, spec := false, model := Json.null, tags := tags0 ++ ["meta-error"],
+                         why := s!"error:{cls}" }
+      | none => pure { agree := true, spec := true, tags := ["OUT_OF_MODEL", "op-precondition"] }
+  | none =>
+    let res ← parseTObs resJ
+    let cmpShapeAgree := srcAuth || op.name == "swap" || op.name == "unflatten"
+    let agree := match model with
+      | some m' => (metaDiff cmpShapeAgree m' res.mt).isEmpty
+      | none => false
+    let metaFails := match spec with
+      | some s' => metaDiff srcAuth s' res.mt
+      | none => ["spec-undefined"]
+    let srcOk := boundsB src.rep src.levels
+    let bfails := if srcOk then boundsFailures res.rep res.levels else []
+    let fails := metaFails ++ bfails
+    pure { agree, spec := fails.isEmpty, model := optMetaJson model,
+           tags := tags0 ++ (if srcOk then [] else ["src-out-of-bounds"]) ++ fails.map (fun f => "fail:" ++ f),
+           why := ",".intercalate fails }
+
+/-! ### constructors -/
+
+def intsToSx (l : List Int) : List Sx := l.map Sx.n
+
+def handleCtor (j : Json) : Except String Verdict := do
+  let how ← fStr j "how"
+  let d ← fNat j "d"
+  let ids ← (← fArr j "ids").mapM parseRId
+  let dflt := fIntD j "dflt" 0
+  let declIn ← match optField j "shape" with
+    | some s => do pure (some (← asInts s))
+    | none => pure none
+  let dims ← match optField j "dims" with
+    | some s => do pure (some (← asInts s))
+    | none => pure none
+  let impl ← field j "impl"
+  let resJ ← field impl "res"
+  if (optField resJ "err").isSome then
+    return { agree := false, spec := false, tags := [how, "ctor-error"], why := "error" }
+  let res ← parseTObs resJ
+  let tree ← fTree resJ "tree" d
+  -- the shape the constructor declares: explicit, or the dimensions of the nest / request
+  let decl : Option (List Int) := match how with
+    | "fromFiber" | "empty" => declIn
+    | _ => match declIn with | some s => some s | none => dims
+  let model := if how == "empty" || how == "makePopulated" then mEmpty ids (decl.map intsToSx) dflt
+               else mFromFiber ids (decl.map intsToSx) dflt
+  let rep : List Int := match decl with | some s => s | none => estShape d tree
+  let lv := dropTrailingEmpty (ctorLevels d tree rep)
+  let metaFails := metaDiff true model res.mt
+  let agree := metaFails.isEmpty && decide (res.rep = intsToSx rep) && decide (dropTrailingEmpty res.levels = lv)
+  let pre := nonnegB d tree && wfB d tree
+  if !pre then return { agree := true, spec := true, tags := ["OUT_OF_MODEL"] }
+  let bfails := boundsFailures res.rep res.levels
+  let fails := metaFails ++ bfails
+  let nonEmpty := !((fibersAt d tree 0).all (fun cs => cs.isEmpty))
+  pure { agree, spec := fails.isEmpty,
+         model := Json.mkObj [("meta", metaJson model), ("shape", jInts rep)],
+         tags := [how, if decl.isSome then "declared" else "estimated"] ++ (if nonEmpty then ["nontrivial"] else []) ++
+                 fails.map (fun f => "fail:" ++ f),
+         why := ",".intercalate fails }
+
+/-! ### lazy results -/
+
+def parseFAttr (j : Json) : Except String FAttr := do
+  let id ← fStr j "id"
+  match (← fArr j "a") with
+  | [lo, hi] => do pure ⟨id, ← lo.getInt?, ← hi.getInt?⟩
+  | _ => throw "range"
+
+def parseLazyOp (j impl : Json) : Except String LazyOp := do
+  match (← fStr j "name") with
+  | "and" => pure .and | "or" => pure .or | "xor" => pure .xor | "sub" => pure .sub
+  | "prune" => pure .prune | "intersection" => pure .intersection | "union" => pure .union
+  | "populate" => pure .populate
+  | "coiterActiveShape" => pure .coiterActiveShape
+  | "coiterRangeShape" => do pure (.coiterRangeShape (← fInt j "lo") (← fInt j "hi"))
+  | "coiterShape" => do pure (.coiterRangeShape 0 (← fInt impl "a_shape"))
+  | "project" => do
+    let iv ← match optField j "interval" with
+      | some v => do
+        match (← asInts v) with
+        | [a, b] => pure (some (a, b))
+        | _ => throw "interval"
+      | none => pure none
+    let rid := (optField j "rank_id").bind (fun v => (v.getStr?).toOption)
+    pure (.project (← fInt j "k") (← fInt j "m") iv rid)
+  | s => throw s!"C14: unknown lazy op {s}"
+
+/-- operations whose yielded coordinates must lie inside the reported range whenever the first
+    operand's do (intersections, difference, pruning, projection, dense co-iteration) -/
+def insideClaimed : LazyOp → Bool
+  | .and | .sub | .prune | .intersection | .coiterActiveShape | .coiterRangeShape _ _ | .project .. => true
+  | _ => false
+
+def handleLazy (j : Json) : Except String Verdict := do
+  let impl ← field j "impl"
+  let opJ ← field j "op"
+  let name ← fStr opJ "name"
+  let resJ ← field impl "res"
+  if (optField resJ "err").isSome then
+    return { agree := false, spec := false, tags := [name, "lazy-error"], why := "error" }
+  let op ← parseLazyOp opJ impl
+  let a ← parseFAttr (← field impl "a")
+  let b ← parseFAttr (← field impl "b")
+  let r ← parseFAttr resJ
+  let isLazy := boolD resJ "lazy" false
+  let model := lazyAttrs op a b
+  let spec := lazySpec op a b
+  let agree := decide (r = model) && isLazy
+  let aCoords ← asInts (← field (← field j "a") "c")
+  let aInside := aCoords.all (fun c => decide (a.lo ≤ c) && decide (c < a.hi))
+  let coordsOk ← match optField resJ "coords" with
+    | some cs => do
+      let l ← asInts cs
+      pure (l.all (fun c => decide (r.lo ≤ c) && decide (c < r.hi)))
+    | none => pure false
+  let fails :=
+    (if r.id = spec.id then [] else ["id"]) ++
+    (if r.lo = spec.lo ∧ r.hi = spec.hi then [] else ["active"]) ++
+    (if isLazy then [] else ["not-lazy"]) ++
+    (if insideClaimed op && aInside && !coordsOk then ["inside"] else [])
+  let nontriv := decide (a.lo ≠ 0 ∨ a.id ≠ "Unknown") || decide (model.lo ≠ a.lo ∨ model.hi ≠ a.hi)
+  pure { agree, spec := fails.isEmpty,
+         model := Json.mkObj [("id", Json.str model.id), ("a", jInts [model.lo, model.hi])],
+         tags := [name] ++ (if nontriv then ["nontrivial"] else []) ++ fails.map (fun f => "fail:" ++ f),
+         why := ",".intercalate fails }
+
+/-! ### joins -/
+
+structure JFib where
+  id : RId
+  shape : Int
+  dflt : Option Int          -- none = the Fiber class (non-leaf ranks)
+  fmt : Fmt
+  coords : List Int
+  owned : Bool
+
+def parseDflt (j : Json) : Except String (Option Int) :=
+  match j with
+  | .str "Fiber" => pure none
+  | _ => do pure (some (← j.getInt?))
+
+def handleJoin (j : Json) : Except String Verdict := do
+  let impl ← field j "impl"
+  if (optField impl "err").isSome then
+    return { agree := false, spec := false, tags := ["join-error"], why := "error" }
+  let d ← fNat j "d"
+  let ids ← (← fArr j "ids").mapM (·.getStr?)
+  let dflt := fIntD j "dflt" 0
+  let via ← fStr j "via"
+  let decl ← match optField j "shape" with
+    | some s => do pure (some (← asInts s))
+    | none => pure none
+  let own ← fArr j "own"
+  let ranksJ ← fArr impl "ranks"
+  let fibersJ ← fArr impl "fibers"
+  let mut fails : List String := []
+  let mut agree := true
+  let mut ownAttrs := false
+  for i in [0:d] do
+    let o := own.getD i Json.null
+    let ownShape : Option Int := (optField o "shape").bind (fun v => (v.getInt?).toOption)
+    if ownShape.isSome || (optField o "id").isSome || (optField o "fmt").isSome || (optField o "dflt").isSome then
+      ownAttrs := true
+    let rJ := ranksJ.getD i Json.null
+    let rId ← parseRId (← field rJ "id")
+    let rShape : Option Int := (optField rJ "shape").bind (fun v => (v.getInt?).toOption)
+    let rEst := boolD rJ "est" true
+    let rDflt ← parseDflt (← field rJ "dflt")
+    let rFmt ← parseFmt (← field rJ "fmt")
+    let fl ← asList (fibersJ.getD i (jList []))
+    -- model of the rank's shape after all fibers of the level joined
+    let start : RankAttrs := ⟨ids.getD i "", decl.map (fun s => s.getD i 0), decl.isNone, 0, Fmt.C⟩
+    let mut r := start
+    for fJ in fl do
+      let cs ← asInts (← field fJ "c")
+      r := joinShape r ownShape (estFiber cs)
+    if via == "fromFiber" then
+      match decl with
+      | some s => r := { r with shape := some (s.getD i 0) }
+      | none => pure ()
+    let wantDflt : Option Int := if i + 1 = d then some dflt else none
+    if !(rId = .one r.id ∧ rShape = r.shape ∧ rEst = r.estimated ∧ rDflt = wantDflt ∧ rFmt = Fmt.C) then
+      agree := false
+    -- spec: every fiber of the level reports the rank's attributes
+    for fJ in fl do
+      let fId ← parseRId (← field fJ "id")
+      let fShape ← fInt fJ "shape"
+      let fD ← parseDflt (← field fJ "dflt")
+      let fF ← parseFmt (← field fJ "fmt")
+      let eff := joined ⟨match rId with | .one s => s | _ => "", rShape, rEst, (rDflt.getD 0), rFmt⟩
+                        ⟨"", ownShape, 0, Fmt.C⟩
+      if fId ≠ rId then fails := fails ++ [s!"id@{i}"]
+      if fShape ≠ eff.shape.getD 0 then fails := fails ++ [s!"shape@{i}"]
+      if fD ≠ rDflt then fails := fails ++ [s!"dflt@{i}"]
+      if fF ≠ eff.fmt then fails := fails ++ [s!"fmt@{i}"]
+      if !boolD fJ "owned" false then fails := fails ++ [s!"owner@{i}"]
+  let failsU := fails.eraseDups
+  pure { agree, spec := failsU.isEmpty, tags := [via] ++ (if ownAttrs then ["nontrivial", "own-attrs"] else []) ++
+           failsU.map (fun f => "fail:" ++ f), why := ",".intercalate failsU }
+
+end C14D
+
+def handleC14 (j : Json) : Except String Verdict := do
+  match (← fStr j "kind") with
+  | "xf" => C14D.handleXf j
+  | "ctor" => C14D.handleCtor j
+  | "lazy" => C14D.handleLazy j
+  | "join" => C14D.handleJoin j
+  | s => throw s!"C14: unknown kind {s}"
 
 end FtDriver
